@@ -446,16 +446,9 @@ def oracle(spec):
 def known_voice(spec, d):
     """The exporter deliberately moves notes that overlap another note of their voice (unequal
     chords, polyphony inside a voice) to a free voice."""
-    if d.kind not in ("note-voice-changed", "note-tie-next-changed", "note-tie-prev-changed"):
+    if d.kind != "note-voice-changed":
         return False
     det = d["detail"]
-    if d.kind != "note-voice-changed":
-        # a tie link is lost when the exporter moved one of the two notes to a later voice: the
-        # tie stop then precedes the tie start in document order
-        if det.get("reloaded") is not None:
-            return False
-        other = det.get("original")
-        return _reassigned(spec, det["part"], det["id"]) or _reassigned(spec, det["part"], other)
     return _reassigned(spec, det["part"], det["id"])
 
 
